@@ -547,7 +547,8 @@ def _check_read(c, ev, res, spec_c, order, name, a, ins, expect_ok, flt, P, stat
             if a[1]:
                 rules = sorted(a[1])
                 an2 = emu.Analyzer(c)
-                an2.post_selection = lambda s_, rules=rules: all(sum(s_[m] for m in modes) in counts for modes, counts in rules)
+                # (the predicate uses the State API, as predicates given to the Sampler may)
+                an2.post_selection = lambda s_, rules=rules: s_.n_photons >= 0 and all(sum(s_[m] for m in modes) in counts for modes, counts in rules)
                 rl = an2.analyze(state(ins))
                 gl = {tuple(o.s): rl.array[0, j] for j, o in enumerate(rl.outputs)}
                 if set(gl) != set(exp) or any(abs(gl[o] - exp[o]) > 1e-8 for o in exp):
@@ -593,7 +594,7 @@ def _check_read(c, ev, res, spec_c, order, name, a, ins, expect_ok, flt, P, stat
             # the post-selection given as a function: first a different predicate from the same factory, then the real one
             if a[1]:
                 def factory(rules):
-                    return lambda s_: all(sum(s_[m] for m in modes) in counts for modes, counts in rules)
+                    return lambda s_: s_.n_photons >= 0 and all(sum(s_[m] for m in modes) in counts for modes, counts in rules)
                 qs = emu.QuickSampler(c, state(ins), photon_counting=a[2], post_select=factory([]))
                 qs.probability_distribution
                 qs.post_select = factory(sorted(a[1]))
